@@ -16,13 +16,15 @@ fn nevra_event(n: &str, e: &str, v: &str, r: &str, a: &str) -> serde_json::Value
         let text = x.to_string();
         let norm = x.as_normalized_form();
         let p = Nevra::parse(&text);
-        let eq = p == x;
+        let eq = p == x && x == p;      // equality in both operand orders
+        let pn_ = Nevra::parse(&norm);
+        let norm_eq = pn_ == x && x == pn_;   // the normalised form is a text form too: it parses back to an equal value
         let (pn, pe, pv, pr, pa) = p.values();
         json!({"event":"NevraRT",
                "x":{"n":codes(n),"e":codes(e),"v":codes(v),"r":codes(r),"a":codes(a)},
                "text":codes(&text),"norm":codes(&norm),
                "parsed":{"n":codes(pn),"e":codes(pe),"v":codes(pv),"r":codes(pr),"a":codes(pa)},
-               "reparsed_eq":eq})
+               "reparsed_eq":eq,"norm_eq":norm_eq})
     });
     res.unwrap_or_else(|m| json!({"event":"Panic","op":"nevra","n":n,"v":v,"msg":m}))
 }
@@ -33,11 +35,13 @@ fn evr_event(e: &str, v: &str, r: &str) -> serde_json::Value {
         let text = x.to_string();
         let norm = x.as_normalized_form();
         let p = Evr::parse(&text);
-        let eq = p == x;
+        let eq = p == x && x == p;      // equality in both operand orders
+        let pn_ = Evr::parse(&norm);
+        let norm_eq = pn_ == x && x == pn_;
         let (pe, pv, pr) = p.values();
         json!({"event":"EvrRT","x":{"e":codes(e),"v":codes(v),"r":codes(r)},
                "text":codes(&text),"norm":codes(&norm),
-               "parsed":{"e":codes(pe),"v":codes(pv),"r":codes(pr)},"reparsed_eq":eq})
+               "parsed":{"e":codes(pe),"v":codes(pv),"r":codes(pr)},"reparsed_eq":eq,"norm_eq":norm_eq})
     });
     res.unwrap_or_else(|m| json!({"event":"Panic","op":"evr","v":v,"msg":m}))
 }
